@@ -770,6 +770,9 @@ func (st *State) upperBound(t *Term, what string) int {
 		return int(t.Val)
 	}
 	ladder := []uint64{8, 16, 32, 64, 128, 256, 512, 1024, 4096, 16384, 70000}
+	if st.eng.cfg.MaxAlloc > 70000 {
+		ladder = append(ladder, uint64(st.eng.cfg.MaxAlloc))
+	}
 	for _, c := range ladder {
 		if int(c) > st.eng.cfg.MaxAlloc {
 			break
